@@ -299,6 +299,9 @@ func TypeDefinitionArrayTypeArgument(t dsl.TypeDefinition) string {
 		return "np.void"
 	case *dsl.GenericTypeParameter:
 		return NumpyTypeParameterSyntax(t)
+	case *dsl.NamedType:
+		// an alias: the annotation takes the element type argument of what it stands for, not its dtype expression
+		return TypeArrayTypeArgument(t.Type)
 	default:
 		return TypeDefinitionDTypeSyntax(t)
 	}
